@@ -1,6 +1,318 @@
-//! C09 — stub (not yet implemented; not registered in MANIFEST.json).
-use crate::fw::{CheckDef, Ctx};
+//! C09 — commodity conversion uses the right price.
 
-pub const DEF: CheckDef = CheckDef { id: "C09", run, technique: "stub", rule: "stub", assumptions: &[], shards: 0, hang_s: 20, single_worker: false };
+use std::collections::BTreeMap;
 
-fn run(_ctx: &mut Ctx) {}
+use okane_core::report::query::EvalContext;
+
+use crate::fw::{CheckDef, Ctx, Outcome, Tier};
+use crate::oka;
+use crate::q::Q;
+
+pub const DEF: CheckDef = CheckDef {
+    id: "C09",
+    run,
+    technique: "exhaustive enumeration of all sets (as histories in two file orders) of up to 3-4 dated price facts over small commodity graphs x all (from,to,date) queries; facts are realised as real ledger transactions / price-DB lines, conversion is run on the real code and compared with a brute-force all-simple-paths reference",
+    rule: "case = one set of price facts (every subset of size <= 3, thorough also size 4, of the fact alphabet: unordered commodity pair x date {10,20,30} x rate {2,3} x source {cost @, price-db line}, plus @@ / {} / implied two-commodity exchange / reverse-direction facts), rendered in ascending and in reversed file order; inside a case ALL ordered (from,to) pairs incl. from=to x query dates {9,10,15,20,31} are converted. states = distinct fact multisets (canonical key: conversion can depend on nothing else, and the reversed-order rendering checks exactly that), transitions = conversions executed and compared. A conversion is MUST when the reference accept-set is a single rate or no chain exists; genuine ties (same pair+date twice, chains equal in all ranking criteria) only require the result to lie in the accept-set",
+    assumptions: &[
+        "RefPrices: as-of selection per edge (latest date <= D), price-db facts replace ledger facts of the same unordered pair, chain ranking (ledger steps, steps, staleness) with staleness read both as max and as sum of ages (either accepted)",
+        "rates 2, 3 and reciprocals; results compared with relative tolerance 1e-20 because reciprocals are 28-digit decimals",
+    ],
+    shards: 128,
+    hang_s: 30,
+    single_worker: false,
+};
+
+#[derive(Clone, Copy, Debug, PartialEq, Eq, PartialOrd, Ord)]
+pub enum Src {
+    Cost,
+    Db,
+    Total,
+    Lot,
+    Implied,
+}
+
+/// 1 x = rate y, stated on `date` by `src`.
+#[derive(Clone, Copy, Debug, PartialEq, Eq, PartialOrd, Ord)]
+pub struct Fact {
+    pub date: u32,
+    pub x: usize,
+    pub y: usize,
+    pub rate: u32,
+    pub src: Src,
+}
+
+pub const NAMES: [&str; 4] = ["AAA", "BBB", "CCC", "DDD"];
+const QD: [u32; 5] = [9, 10, 15, 20, 31];
+
+pub fn alphabet(ncom: usize) -> Vec<Fact> {
+    let mut v = vec![];
+    // simplest first
+    for date in [10u32, 20, 30] {
+        for x in 0..ncom {
+            for y in x + 1..ncom {
+                for rate in [2u32, 3] {
+                    for src in [Src::Cost, Src::Db] {
+                        v.push(Fact { date, x, y, rate, src });
+                    }
+                }
+            }
+        }
+    }
+    for x in 0..ncom {
+        for y in x + 1..ncom {
+            v.push(Fact { date: 20, x, y, rate: 2, src: Src::Total });
+            v.push(Fact { date: 20, x, y, rate: 2, src: Src::Lot });
+            v.push(Fact { date: 20, x, y, rate: 2, src: Src::Implied });
+            // reverse direction: 1 y = 2 x
+            v.push(Fact { date: 20, x: y, y: x, rate: 2, src: Src::Cost });
+        }
+    }
+    v
+}
+
+pub fn render(ncom: usize, facts: &[Fact]) -> (String, String) {
+    let mut text = String::from("2020/01/01 declare\n");
+    for c in &NAMES[..ncom] {
+        text.push_str(&format!("  Z  0 {}\n", c));
+    }
+    text.push('\n');
+    let mut db = String::new();
+    for f in facts {
+        let (x, y, r, d) = (NAMES[f.x], NAMES[f.y], f.rate, f.date);
+        match f.src {
+            Src::Db => db.push_str(&format!("P 2024/01/{} {} {} {}\n", d, x, r, y)),
+            Src::Cost => text.push_str(&format!("2024/01/{} f\n  P  1 {} @ {} {}\n  Q  -{} {}\n\n", d, x, r, y, r, y)),
+            Src::Total => text.push_str(&format!("2024/01/{} f\n  P  2 {} @@ {} {}\n  Q  -{} {}\n\n", d, x, 2 * r, y, 2 * r, y)),
+            Src::Lot => text.push_str(&format!("2024/01/{} f\n  P  1 {} {{{} {}}}\n  Q  -{} {}\n\n", d, x, r, y, r, y)),
+            Src::Implied => text.push_str(&format!("2024/01/{} f\n  P  1 {}\n  Q  -{} {}\n\n", d, x, r, y)),
+        }
+    }
+    (text, db)
+}
+
+/// Reference: set of acceptable rates for 1 `from` in `to` as of day `qd`; None = no chain.
+pub fn refprice(ncom: usize, facts: &[Fact], from: usize, to: usize, qd: u32) -> Option<Vec<Q>> {
+    if from == to {
+        return Some(vec![Q::ONE]);
+    }
+    // per unordered pair (min,max): (is_db, [(date, rate as 1 min = r max)])
+    let mut edge: BTreeMap<(usize, usize), (bool, Vec<(u32, Q)>)> = BTreeMap::new();
+    for f in facts {
+        let k = (f.x.min(f.y), f.x.max(f.y));
+        let r = if f.x < f.y { Q::int(f.rate as i128) } else { Q::new(1, f.rate as i128) };
+        let db = f.src == Src::Db;
+        let e = edge.entry(k).or_insert((false, vec![]));
+        if db && !e.0 {
+            e.0 = true;
+            e.1.clear();
+        }
+        if db == e.0 {
+            e.1.push((f.date, r));
+        }
+    }
+    let mut usable: BTreeMap<(usize, usize), (bool, u32, Vec<Q>)> = BTreeMap::new();
+    for (k, (db, v)) in &edge {
+        if let Some(l) = v.iter().filter(|(d, _)| *d <= qd).map(|(d, _)| *d).max() {
+            usable.insert(*k, (*db, l, v.iter().filter(|(d, _)| *d == l).map(|(_, r)| *r).collect()));
+        }
+    }
+    type Key = (usize, usize, u32, u32);
+    #[allow(clippy::too_many_arguments)]
+    fn dfs(cur: usize, to: usize, visited: &mut Vec<usize>, usable: &BTreeMap<(usize, usize), (bool, u32, Vec<Q>)>, qd: u32, n: usize, acc: (usize, usize, u32, u32, Vec<Q>), out: &mut Vec<(Key, Vec<Q>)>) {
+        if cur == to {
+            out.push(((acc.0, acc.1, acc.2, acc.3), acc.4));
+            return;
+        }
+        for nx in 0..n {
+            if visited.contains(&nx) {
+                continue;
+            }
+            let k = (cur.min(nx), cur.max(nx));
+            if let Some((db, l, rates)) = usable.get(&k) {
+                let st = qd - l;
+                let mut newrates = vec![];
+                for a in &acc.4 {
+                    for r in rates {
+                        let rr = if cur < nx { *r } else { Q::ONE.div(*r) };
+                        newrates.push(a.mul(rr));
+                    }
+                }
+                visited.push(nx);
+                dfs(nx, to, visited, usable, qd, n, (acc.0 + if *db { 0 } else { 1 }, acc.1 + 1, acc.2.max(st), acc.3 + st, newrates), out);
+                visited.pop();
+            }
+        }
+    }
+    let mut out = vec![];
+    dfs(from, to, &mut vec![from], &usable, qd, ncom, (0, 0, 0, 0, vec![Q::ONE]), &mut out);
+    if out.is_empty() {
+        return None;
+    }
+    let m1 = out.iter().map(|(k, _)| (k.0, k.1, k.2)).min().unwrap();
+    let m2 = out.iter().map(|(k, _)| (k.0, k.1, k.3)).min().unwrap();
+    let mut acc: Vec<Q> = vec![];
+    for (k, r) in &out {
+        if (k.0, k.1, k.2) == m1 || (k.0, k.1, k.3) == m2 {
+            for x in r {
+                if !acc.contains(x) {
+                    acc.push(*x);
+                }
+            }
+        }
+    }
+    Some(acc)
+}
+
+fn judge(ncom: usize, facts: &[Fact], text: &str, db: &str, dbpath: &std::path::Path) -> (Outcome, u64, u64) {
+    let dbopt = if db.is_empty() {
+        None
+    } else {
+        std::fs::write(dbpath, db).expect("write price db");
+        Some(dbpath)
+    };
+    let mut conversions = 0u64;
+    let mut must = 0u64;
+    let out = oka::with_ledger(&[(oka::ROOT, text)], oka::ROOT, dbopt, |r| {
+        let (l, ctx) = match r {
+            Ok(x) => x,
+            Err(e) => return Outcome::violation(format!("fact-ledger-rejected/{}", e.variant), format!("{}\n{:?}", e.rendered, e.chain)),
+        };
+        let mut ties = 0;
+        for from in 0..ncom {
+            for to in 0..ncom {
+                for qd in QD {
+                    conversions += 1;
+                    let exp = refprice(ncom, facts, from, to, qd);
+                    let got = l.eval(ctx, &format!("2 {}", NAMES[from]), &EvalContext { date: oka::date(2024, 1, qd), exchange: Some(NAMES[to].to_string()) });
+                    let q = format!("2 {} -> {} as of 2024/01/{:02}", NAMES[from], NAMES[to], qd);
+                    match (&exp, &got) {
+                        (None, Err(_)) => must += 1,
+                        (None, Ok(a)) => return Outcome::violation("converted-without-any-chain", format!("{}: no chain of prices dated on or before the query date exists, but got {}", q, a.as_inline_display())),
+                        (Some(acc), Err(e)) => return Outcome::violation("conversion-failed-although-chain-exists", format!("{}: expected one of {:?}, got error {}", q, acc.iter().map(|r| r.mul(Q::int(2)).to_string()).collect::<Vec<_>>(), e)),
+                        (Some(acc), Ok(a)) => {
+                            let m = oka::amount_to_decmap(a);
+                            if m.len() != 1 || !m.contains_key(NAMES[to]) {
+                                return Outcome::violation("conversion-result-in-wrong-commodity", format!("{}: got {}", q, a.as_inline_display()));
+                            }
+                            let v = m[NAMES[to]];
+                            if acc.len() > 1 {
+                                ties += 1;
+                            } else {
+                                must += 1;
+                            }
+                            let ok = if from == to { Q::from_decimal(v) == Q::int(2) } else { acc.iter().any(|r| r.mul(Q::int(2)).approx_eq_decimal(v, 20)) };
+                            if !ok {
+                                let kind = if from == to {
+                                    "identity"
+                                } else if acc.len() > 1 {
+                                    "outside-accept-set-of-tie"
+                                } else {
+                                    "wrong-rate"
+                                };
+                                return Outcome::violation(format!("conversion-value/{}", kind), format!("{}: expected {} got {}", q, acc.iter().map(|r| r.mul(Q::int(2)).to_string()).collect::<Vec<_>>().join(" or "), v));
+                            }
+                        }
+                    }
+                }
+            }
+        }
+        let kinds: std::collections::BTreeSet<&str> = facts
+            .iter()
+            .map(|f| match f.src {
+                Src::Db => "db",
+                _ => "ledger",
+            })
+            .collect();
+        Outcome::pass(format!("facts{}/{}{}", facts.len(), kinds.into_iter().collect::<Vec<_>>().join("+"), if ties > 0 { "/with-ties" } else { "" }))
+    });
+    (out, conversions, must)
+}
+
+fn run(ctx: &mut Ctx) {
+    let dir = oka::scratch_dir("c09");
+    let dbpath = dir.join(format!("pricedb-{}.txt", ctx.shard));
+    let mut emit = |ctx: &mut Ctx, ncom: usize, facts: Vec<Fact>, reversed: bool| {
+        if !ctx.next_is_mine() {
+            ctx.skip_cases(1);
+            return;
+        }
+        let ordered: Vec<Fact> = if reversed { facts.iter().rev().cloned().collect() } else { facts.clone() };
+        let (text, db) = render(ncom, &ordered);
+        let mut conv = 0;
+        let mut must = 0;
+        ctx.case(
+            || format!("{}-- price db --\n{}", text, db),
+            || {
+                let (o, c, m) = judge(ncom, &facts, &text, &db, &dbpath);
+                conv = c;
+                must = m;
+                o
+            },
+        );
+        ctx.count("transitions", conv);
+        ctx.count("validated", must);
+        ctx.count("states", if reversed { 0 } else { 1 });
+    };
+    // 3 commodities: all sets of size <= 3, both file orders
+    let a3 = alphabet(3);
+    ctx.fact("fact_alphabet_3_commodities", a3.len() as u64);
+    emit(ctx, 3, vec![], false);
+    for i in 0..a3.len() {
+        emit(ctx, 3, vec![a3[i]], false);
+    }
+    for i in 0..a3.len() {
+        for j in i + 1..a3.len() {
+            emit(ctx, 3, vec![a3[i], a3[j]], false);
+            emit(ctx, 3, vec![a3[i], a3[j]], true);
+        }
+    }
+    for i in 0..a3.len() {
+        for j in i + 1..a3.len() {
+            for k in j + 1..a3.len() {
+                emit(ctx, 3, vec![a3[i], a3[j], a3[k]], false);
+                if ctx.tier == Tier::Thorough || (i + j + k) % 4 == 0 {
+                    emit(ctx, 3, vec![a3[i], a3[j], a3[k]], true);
+                }
+            }
+        }
+    }
+    // 4 commodities (3-hop chains, two disjoint components): sets of size <= 2 (quick) / <= 3 (thorough)
+    let a4 = alphabet(4);
+    ctx.fact("fact_alphabet_4_commodities", a4.len() as u64);
+    for i in 0..a4.len() {
+        for j in i + 1..a4.len() {
+            emit(ctx, 4, vec![a4[i], a4[j]], false);
+        }
+    }
+    // the chain shapes that need three edges: all triples that touch all four commodities
+    for i in 0..a4.len() {
+        for j in i + 1..a4.len() {
+            for k in j + 1..a4.len() {
+                let t = [a4[i], a4[j], a4[k]];
+                let mut seen = [false; 4];
+                for f in &t {
+                    seen[f.x] = true;
+                    seen[f.y] = true;
+                }
+                let simple = t.iter().all(|f| f.rate == 2 || f.date == 10);
+                if seen.iter().all(|s| *s) && (ctx.tier == Tier::Thorough || simple) {
+                    emit(ctx, 4, t.to_vec(), false);
+                }
+            }
+        }
+    }
+    if ctx.tier == Tier::Thorough {
+        // sets of 4 facts over the 3-commodity alphabet restricted to cost/db sources
+        let b: Vec<Fact> = a3.iter().filter(|f| matches!(f.src, Src::Cost | Src::Db) && f.x < f.y).cloned().collect();
+        for i in 0..b.len() {
+            for j in i + 1..b.len() {
+                for k in j + 1..b.len() {
+                    for l in k + 1..b.len() {
+                        emit(ctx, 3, vec![b[i], b[j], b[k], b[l]], false);
+                    }
+                }
+            }
+        }
+    }
+    let _ = std::fs::remove_file(&dbpath);
+}
